@@ -15,7 +15,8 @@
    the 8-octet header.
    NOTE (defect, fixed in /repo by a `fix:` commit, see known_findings.txt): `buffer_len()` of
    this variant used to be 8 although emit writes 8 + 20 * n octets - a buffer of the declared
-   length made emit panic; the model is of the fixed code.
+   length made emit panic; the model is of the fixed code.  Likewise `AddressRecordRepr::parse`
+   used to read the record header without check_len (panic on a short record view); fixed.
 
    Panic sources: slice indexing, copy_from_slice length mismatch (`payload_mut()
    .copy_from_slice(data)`), `assert!(value < 8)` in set_qrv, `assert!(addr.is_multicast())` in
@@ -79,8 +80,9 @@ Definition mldrec_set_mcast_addr (bs : list Z) (a : list Z) :=
   do _ <- wb_assert (ipv6_addr_is_multicast a);
   wb_set_field bs wicmpv6_f_RECORD_MCAST_ADDR a.
 
-(* AddressRecordRepr::parse (no check_len of its own: it is called on a checked view) *)
+(* AddressRecordRepr::parse *)
 Definition mldrec_parse (bs : list Z) : outcome mldrec_repr :=
+  do _ <- mldrec_check_len bs;
   do n <- mldrec_num_srcs_ bs;
   do a <- mldrec_mcast_addr bs;
   do t <- mldrec_record_type bs;
